@@ -29,6 +29,10 @@ def _last(pid):
     return ("at", ("part", pid), ("lin", F.lin_add(F.lin_term(("len", ("part", pid))), F.lin_const(-1))))
 
 
+class WrongLayer(Exception):
+    """A flag looks at a layer other than the last one."""
+
+
 def _eval_flag(v, env, sizes):
     """Value of a flag (Const / PredV) under decided predicates and sizes of last layers."""
     p = returned_bool(None, v)
@@ -44,12 +48,24 @@ def _eval_flag(v, env, sizes):
             return all(vals) if k == "and" else any(vals)
         if k == "empty" and q[1] in sizes:
             return sizes[q[1]] == 0
+        if k == "empty" and isinstance(q[1], tuple) and q[1][:1] == ("at",):
+            raise WrongLayer(q[1])
+        if k == "cmp" and q[1] == "==" and len(q) == 4:
+            # identity / equality of a partition-or-False value with a Boolean constant: a partition is never True
+            for a, b in ((q[2], q[3]), (q[3], q[2])):
+                if a in (("c", True), ("c", False)) and isinstance(b, tuple) and b[:1] == ("elem",) and b[-1] == "partition":
+                    pf = env.get(("partfalse", b[1]))
+                    if pf is None:
+                        raise KeyError(("partfalse", b[1]))
+                    return (a[1] is False) and pf
         if k == "cmp" and isinstance(q[2], tuple) and q[2][:1] == ("lin",):
             lin = q[2][1]
             x = lin[1]
             for t, c in lin[0]:
                 if isinstance(t, tuple) and t[0] == "len" and t[1] in sizes:
                     x += c * sizes[t[1]]
+                elif isinstance(t, tuple) and t[0] == "len" and isinstance(t[1], tuple) and t[1][:1] == ("at",):
+                    raise WrongLayer(t[1])
                 else:
                     raise KeyError(t)
             return (x == 0) if q[1] == "==" else (x < 0)
@@ -128,6 +144,9 @@ def flags(rep, ex: Explorer):
                                 if key in d.entries:
                                     try:
                                         got[key] = _eval_flag(d.entries[key], env, sizes)
+                                    except WrongLayer as e:
+                                        rep.violation("DIAG.flags", site, f"{key}: layer inspected", "the flags are read off the last (infinity) layer of the extended partition", extracted=f"inspects {F.show_desc(e.args[0])[:120]}", required="the last layer", function=site)
+                                        got[key] = want.get(key, "absent")
                                     except KeyError as e:
                                         raise AnalysisError(f"{site}: flag {key} depends on {e}")
                             for key in sorted(set(want) | set(got)):
